@@ -63,7 +63,9 @@ def oracle(res, case, sk, ops, impl, live, tmp, keypath):
         if sf["s"] == "leaf" and "v" in slot:
             d = sf.get("default")
             want = F.enc_val(d["v"]) if d else {"t": "none"}
-            if sf["field"]["k"] not in ("challenge",) and F.canon_val(slot["v"]) != F.canon_val(want):
+            # a typed list / dict default goes through its proxy, i.e. its items are validated once more: for the recorded
+            # non-idempotent item fields (F22, F25) the exposed items are the re-validated ones, which is C05's finding, not C12's
+            if sf["field"]["k"] not in ("challenge",) and not F.nonidempotent_container(sf["field"]) and F.canon_val(slot["v"]) != F.canon_val(want):
                 res.violate("C12:fresh-default", "a freshly built configuration does not expose the declared default",
                             dict(case, path=p, got=slot["v"], want=want))
     prev = st0
